@@ -43,8 +43,8 @@ theorem top_marks_kept (op : Op) (args : List Value) (r : Value) (h : op.run arg
     (a : Value) (ha : a ∈ args) (m : String) (hm : m ∈ a.marks) : m ∈ r.marks := by
   obtain ⟨i, hi⟩ := List.getElem?_of_mem ha
   refine Op.run_kept op args r h i a hi m ?_
-  cases op <;> (try simp only [Op.promised]) <;> first | exact hm | exact marks_subset_marksDeep hm | skip
-  rcases i with _ | _ | i <;> simp only [Op.promised] <;> first | exact hm | exact marks_subset_marksDeep hm
+  cases op <;> first | exact hm | exact marks_subset_marksDeep hm | skip
+  rcases i with _ | _ | i <;> first | exact hm | exact marks_subset_marksDeep hm
 
 /-- **No loss, where the code promises more.** `Equals` keeps the marks found at
 any depth of either operand, `HasElement` those at any depth of the needle
